@@ -1376,7 +1376,7 @@ SUMPROD = "funsor/sum_product.py"
 fire("c09-ordinal-of-variable-is-a-union", "C09", SUMPROD,
      "    for f in factors:\n        ordinal = plates.intersection(f.inputs)\n        ordinal_to_factors[ordinal].append(f)\n        for var in sum_vars.intersection(f.inputs):\n            var_to_ordinal[var] = var_to_ordinal.get(var, ordinal) & ordinal\n\n    ordinal_to_vars = defaultdict(set)\n    for var, ordinal in var_to_ordinal.items():\n        ordinal_to_vars[ordinal].add(var)\n\n    results = []\n",
      "    for f in factors:\n        ordinal = plates.intersection(f.inputs)\n        ordinal_to_factors[ordinal].append(f)\n        for var in sum_vars.intersection(f.inputs):\n            var_to_ordinal[var] = var_to_ordinal.get(var, ordinal) | ordinal\n\n    ordinal_to_vars = defaultdict(set)\n    for var, ordinal in var_to_ordinal.items():\n        ordinal_to_vars[ordinal].add(var)\n\n    results = []\n",
-     "R09.1", "partial_sum_product")
+     "R09.1", "partial_sum_product", count=3, nth=0)
 fire("c09-shallowest-ordinal-first", "C09", SUMPROD, "        leaf = max(ordinal_to_factors, key=len)  # CHOICE\n", "        leaf = min(ordinal_to_factors, key=len)  # CHOICE\n", "R09.2", "partial_sum_product")
 silent("c09-s-leaf-from-keys-view", "C09", SUMPROD, "        leaf = max(ordinal_to_factors, key=len)  # CHOICE\n", "        leaf = max(ordinal_to_factors.keys(), key=len)  # CHOICE\n")
 fire("c09-requeued-factor-reduced-over-whole-leaf", "C09", SUMPROD,
@@ -1516,6 +1516,41 @@ fire("c10-naive-fold-pairs-sorted-independently", "C10", SUMPROD,
 silent("c10-s-naive-fold-keys-by-iteration", "C10", SUMPROD,
        "    prev_to_drop = dict(zip(step.keys(), drop))\n    curr_to_drop = dict(zip(step.values(), drop))\n    drop = frozenset(drop)\n",
        "    prev_to_drop = dict(zip(step, drop))\n    curr_to_drop = dict(zip([v for k, v in step.items()], drop))\n    drop = frozenset(drop)\n")
+
+# ---- round 11: R09.10, R13.7 (guard), R13.11, R13.12, R14.7 - R14.10, R19.4 (scalar inputs only)
+EINSUM = "funsor/einsum/__init__.py"
+DELTA = "funsor/delta.py"
+TENSOR_ = "funsor/tensor.py"
+fire("c09-plated-einsum-delegates-after-popping-backend", "C09", EINSUM,
+     "    output_plates = output_dims & frozenset(plates)\n", "    if not plate_dims:\n        return naive_einsum(eqn, *terms, **kwargs)\n    output_plates = output_dims & frozenset(plates)\n", "R09.10", "naive_plated_einsum")
+silent("c09-s-plated-einsum-delegates-with-explicit-backend", "C09", EINSUM,
+       "    output_plates = output_dims & frozenset(plates)\n", "    if not plate_dims:\n        return naive_einsum(eqn, *terms, backend=backend, **kwargs)\n    output_plates = output_dims & frozenset(plates)\n")
+fire("c13-marginalisation-guard-uses-kept-block", "C13", GAUSS,
+     "            dim_b = prec_sqrt_b.shape[-2]\n", "            dim_b = prec_sqrt_a.shape[-2]\n", "R13.7", "Gaussian.eager_reduce")
+fire("c13-distribute-integrate-drops-the-sign", "C13", INTEGRATE,
+     "                -Integrate(log_measure, term.arg, reduced_vars)\n", "                Integrate(log_measure, term.arg, reduced_vars)\n", "R13.11", "eager_distribute_integrate")
+fire("c13-integrate-neg-gaussian-drops-the-sign", "C13", INTEGRATE,
+     "    return -Integrate(log_measure, integrand.arg, reduced_vars)\n", "    return Integrate(log_measure, integrand.arg, reduced_vars)\n", "R13.11", "eager_integrate_neg_gaussian")
+silent("c13-s-integrate-neg-gaussian-via-ops-neg", "C13", INTEGRATE,
+       "    return -Integrate(log_measure, integrand.arg, reduced_vars)\n", "    return ops.neg(Integrate(log_measure, integrand.arg, reduced_vars))\n")
+fire("c13-mixture-integral-ignores-the-mixtures-own-reduction", "C13", INTEGRATE,
+     "        result = discrete.exp() * Integrate(gaussian, integrand, reduced_vars)\n        # The measure may itself be a mixture summed over some of its inputs.\n        return result.reduce(ops.add, log_measure.reduced_vars)\n",
+     "        return discrete.exp() * Integrate(gaussian, integrand, reduced_vars)\n", "R13.12", "eager_integrate_gaussianmixture")
+fire("c14-sample-global-max", "C14", TENSOR_,
+     "            logit_max = np.amax(flat_logits, -1, keepdims=True)\n", "            logit_max = np.amax(flat_logits)\n", "R14.7", "Tensor._sample")
+silent("c14-s-sample-max-axis-keyword", "C14", TENSOR_,
+       "            logit_max = np.amax(flat_logits, -1, keepdims=True)\n", "            logit_max = np.amax(flat_logits, axis=-1, keepdims=True)\n")
+fire("c14-delta-plus-delta-one-orientation-only", "C14", DELTA,
+     "    if lhs.fresh.intersection(rhs.inputs):\n        return eager_add_delta_funsor(op, lhs, rhs)\n\n    if rhs.fresh", "    if rhs.fresh", "R14.8", "eager_add_multidelta")
+fire("c14-delta-reduce-rest-with-add", "C14", DELTA,
+     "            return result.reduce(op, reduced_vars - self.fresh)\n", "            return result.reduce(ops.add, reduced_vars - self.fresh)\n", "R14.9", "Delta.eager_reduce")
+fire("c14-astype-without-scalar-implementation", "C14", "funsor/ops/array.py",
+     "    if isinstance(x, numbers.Number):\n        # Python scalars, e.g. the bool obtained by comparing two Numbers.\n        return np.dtype(dtype).type(x).item()\n    raise NotImplementedError\n\n\n@astype.register(array)",
+     "    raise NotImplementedError\n\n\n@astype.register(array)", "R14.10", "Delta.eager_subs")
+fire("c19-materialize-array-valued-integer-inputs", "C19", TENSOR_,
+     "            if isinstance(domain.dtype, int) and not domain.shape:\n", "            if isinstance(domain.dtype, int):\n", "R19.4", "Tensor.materialize")
+silent("c19-s-materialize-scalar-test-as-len", "C19", TENSOR_,
+       "            if isinstance(domain.dtype, int) and not domain.shape:\n", "            if isinstance(domain.dtype, int) and len(domain.shape) == 0:\n")
 
 # ===== derived variants: must stay at the END of this file (they enumerate every rename() variant above) =====
 # `if c: A else: B` -> `if not c: B else: A` in the anchor functions (behaviour-preserving)
